@@ -332,6 +332,73 @@ def interrupted_build_task(points, zone_map):
     return st
 
 
+# ---- two threads meet the lazily built zone-name map (Driver C on hszinc/zoneinfo.py) ---------------------------------
+SHORT_ZONES = ['Africa/Abidjan', 'Africa/Cairo', 'America/New_York', 'Etc/GMT-2', 'Etc/UTC', 'Europe/London', 'Europe/Zurich', 'UTC']
+
+
+def _zone_traced(code):
+    return code.co_filename.endswith('hszinc/zoneinfo.py') and code.co_name not in ('<module>', '<listcomp>', '<genexpr>', '<dictcomp>', '<lambda>')
+
+
+def zone_schedule_task(prefixes, bound, budget):
+    """Both threads use a zone for the first time in the process (the map does not exist yet; pytz.all_timezones is replaced by an
+    8-name stand-in so that the build is short): every interleaving at source-line granularity of hszinc/zoneinfo.py with at most
+    `bound` preemptions.  Each thread must get the answers it gets when it runs alone."""
+    import gc
+    import hszinc as hs
+    from hszinc import zoneinfo as zi
+    from mc import modstate, sched
+    st = Stats()
+    real = zi.pytz
+    zurich = pytz.timezone('Europe/Zurich').localize(datetime.datetime(2021, 7, 1, 12, 0, 0))
+    cairo = pytz.timezone('Africa/Cairo').localize(datetime.datetime(2021, 7, 1, 12, 0, 0))
+    expected = None
+
+    def bodies(results):
+        def a():
+            results[0].append(hs.dump_scalar(zurich, mode=hs.MODE_ZINC))
+            results[0].append(repr(hs.parse_scalar('2021-07-01T12:00:00+02:00 Cairo', mode=hs.MODE_ZINC).tzinfo))
+
+        def b():
+            results[1].append(hs.dump_scalar(cairo, mode=hs.MODE_JSON))
+            results[1].append(repr(hs.parse_scalar('t:2021-07-01T12:00:00+02:00 Zurich', mode=hs.MODE_JSON).tzinfo))
+        return [a, b]
+
+    def make_run(prefix):
+        gc.disable()
+        modstate.restore()
+        zi.pytz = _PytzProxy(real, list(SHORT_ZONES))
+        results = [[], []]
+        sc = sched.Scheduler(bodies(results), _zone_traced, list(prefix))
+        problems = []
+        try:
+            try:
+                sc.run()
+            except sched.Deadlock as e:
+                problems.append('deadlock: %s' % str(e)[:100])
+        finally:
+            zi.pytz = real
+            gc.enable()
+        for i in (0, 1):
+            if sc.errors[i] is not None:
+                problems.append('thread %d raised %s' % (i, type(sc.errors[i]).__name__))
+        obs = (tuple(results[0]), tuple(results[1]))
+        if not problems and expected is not None and obs != expected:
+            problems.append('answers differ from the sequential ones: %r' % (obs,))
+        st.case(('zone-schedule', tuple(sc.choices)), nontrivial=any(c != 0 for c in sc.choices), outcome=('zone-schedule', obs, bool(problems)),
+                sample={'schedule': list(sc.choices)[:40], 'answers': [list(r) for r in results]} if any(sc.choices) and not st.samples else None)
+        if problems:
+            st.fail('zone-lost-when-two-threads-meet-the-unbuilt-zone-map', {'preemptions': sc.preemptions_before(len(sc.choices))},
+                    {'kind': 'zone-schedule', 'schedule': list(sc.choices)}, {'what': problems[0], 'sequential': repr(expected)})
+        return sc, obs
+    # the sequential execution (no preemption) defines the expected answers
+    sc0, expected = make_run([])
+    st.failures, st.nfail = [], 0
+    left = sched.explore_schedules(make_run, bound, st, prefixes, budget)
+    modstate.restore()
+    return st, left
+
+
 def micro_task(zones, values):
     """Sub-second digits: every listed microsecond value (the hazard alphabet of ref/hazards.py) in a few zones, both formats."""
     import hszinc as hs
@@ -367,6 +434,20 @@ def run(ctx):
     mz = [(n, o) for n, o in zone_list if n in ('UTC', 'New_York', 'Kathmandu')]
     for part in pmap(micro_task, [(mz, c) for c in chunks(us_values, ctx.jobs * 2)], ctx.jobs):
         st.merge(part)
+    # interleavings of two first users of the zone map: preemption bound 1 (quick) / 2 (thorough), re-sharded until nothing is left
+    from mc import sched as _sched
+    part, left = zone_schedule_task([[]], 1 if ctx.quick else 2, 1)
+    st.merge(part)
+    work, rounds = left, 0
+    while work:
+        rounds += 1
+        tasks = [(c, 1 if ctx.quick else 2, 200) for c in chunks(work, ctx.jobs * 2)]
+        work = []
+        for part, left in pmap(zone_schedule_task, tasks, ctx.jobs):
+            st.merge(part)
+            work.extend(left)
+        if rounds > 2000:
+            raise HarnessError('zone schedule exploration does not converge')
     points = list(range(0, len(pytz.all_timezones) + 1))
     for part in pmap(interrupted_build_task, [(c, dict(zone_list)) for c in chunks(points, ctx.jobs * 2)], ctx.jobs):
         st.merge(part)
@@ -393,7 +474,7 @@ def run(ctx):
         'rule': 'complete product: every mapped zone (%d on this host) x %s transition instants (%d in total, + 2 ordinary instants per zone) x 5 '
                 'offsets around the transition x microseconds x {ZINC, JSON}; the zone map in both directions; fixed offsets %s minute(s) apart in '
                 '-14h..+14h x %d local times that are ambiguous/skipped/ordinary in some mapped zone; unmapped pytz zones, pytz.FixedOffset, '
-                'zoneinfo.ZoneInfo; plus %d microsecond values (those on which float arithmetic on the fraction is inexact: ref/hazards.py) in 3 zones x both formats; the first build of the zone map interrupted by an injected exception at every position of pytz.all_timezones (1 fault per execution), 5 zones x both formats afterwards; distinct = distinct (zone or tzinfo, instant, format)' % (
+                'zoneinfo.ZoneInfo; plus %d microsecond values (those on which float arithmetic on the fraction is inexact: ref/hazards.py) in 3 zones x both formats; every interleaving (source lines of zoneinfo.py, preemption-bounded) of two threads that are the first users of the zone map, with an 8-name stand-in for the zone list; the first build of the zone map interrupted by an injected exception at every position of pytz.all_timezones (1 fault per execution), 5 zones x both formats afterwards; distinct = distinct (zone or tzinfo, instant, format)' % (
                     len(zone_list), 'first 2 + last 6' if ctx.quick else 'all tabulated (1850-2100)', ntrans, '15 (+ the neighbours of the half hours)' if ctx.quick else 1, len(locs), len(us_values)),
         'coverage': {'bounds': {'zones': len(zone_list), 'transition_instants': ntrans, 'fixed_offsets': len(offsets), 'edge_local_times': len(locs), 'hazard_microsecond_values': len(us_values)}},
         'assumptions': ['pytz transition tables and datetime arithmetic are the oracle for instants and offsets',
@@ -430,6 +511,9 @@ def replay(case, st):
                 st.fail('datetime-changed-through-roundtrip', {'fmt': case['fmt'], 'offset': 'stale-for-the-zone'}, case, {'text': text, 'back': repr(back)})
         except Exception as e:  # noqa
             st.fail('mapped-zone-datetime-roundtrip-raised', {'fmt': case['fmt'], 'exc': type(e).__name__}, case, {'exc': repr(e)})
+    elif k == 'zone-schedule':
+        sub, _ = zone_schedule_task([case['schedule']], 0, 1)
+        st.merge(sub)
     elif k == 'interrupted-build':
         st.merge(interrupted_build_task([case['k']], dict(zone_list)))
     elif k == 'map':
